@@ -50,7 +50,15 @@ def main():
     ok = True
     try:
         os.makedirs(os.path.join(scratch, '_mut', 'S'), exist_ok=True)
-        shutil.copy(demo, os.path.join(scratch, '_mut', 'S', 'demo.py'))
+        import re
+        text = open(demo).read()
+        # demos written by sub-agents may assert the path of the worktree they were written in
+        text2 = re.sub(r'/tmp/mut-C\d\d', scratch, text)
+        if text2 != text:
+            meta['demo_note'] = ('demo.py hard-codes its original worktree path (/tmp/mut-Cxx) in an import-location '
+                                 'assertion; seed_eval substitutes the scratch worktree path before running it')
+        with open(os.path.join(scratch, '_mut', 'S', 'demo.py'), 'w') as f:
+            f.write(text2)
         env = 'PYTHONDONTWRITEBYTECODE=1 PYTHONPATH=%s timeout 600 /venv/bin/python _mut/S/demo.py' % scratch
         rc, out = sh(env, cwd=scratch)
         meta['demo_clean_exit'] = rc
